@@ -177,16 +177,39 @@ def run(db, rep):
                 j2 = j
                 while j2 < len(wt) and guarded(wt[j2]) and not has_atoms(wt[j2][3]):
                     j2 += 1
-                wrun = list(wt[j:j2])
-                for r_ in rt[i:i2]:
-                    hit = [x for x in wrun if member_name(x[2]) == member_name(r_[2])]
+                def sig(t):
+                    return tuple((c_.key, p_) for c_, p_ in t[8])
+
+                def branches(toks):
+                    """consecutive tokens under the same guards form one branch: inside a branch the order counts"""
+                    out = []
+                    for t in toks:
+                        if out and sig(out[-1][-1]) == sig(t):
+                            out[-1].append(t)
+                        else:
+                            out.append([t])
+                    return out
+                wbr = branches(wt[j:j2])
+                for rb in branches(rt[i:i2]):
+                    names = [member_name(x[2]) for x in rb]
+                    hit = [wb for wb in wbr if [member_name(x[2]) for x in wb][:len(names)] == names]
                     if not hit:
-                        bad = "position %d: the constructor reads `%s` (in one of its branches), write_serialization writes %s there" % (
-                            i + 1, member_name(r_[2]), sorted(set(member_name(x[2]) or "?" for x in wt[j:j2])))
+                        # same members but in another order inside one branch, or no branch writing them at all
+                        cand = [wb for wb in wbr if sorted(member_name(x[2]) or "?" for x in wb) == sorted(n_ or "?" for n_ in names)]
+                        if cand:
+                            wn_ = [member_name(x[2]) for x in cand[0]]
+                            k_ = next(q for q in range(len(names)) if names[q] != wn_[q])
+                            bad = "position %d: the constructor reads `%s`, write_serialization writes `%s`" % (i + 1 + k_, names[k_], wn_[k_])
+                        else:
+                            bad = "position %d: the constructor reads %s (in one of its branches), write_serialization writes %s there" % (
+                                i + 1, names, sorted(set(member_name(x[2]) or "?" for x in wt[j:j2])))
                         break
-                    wrun.remove(hit[0])
-                    bad = pair(r_, hit[0], i + 1)
-                    n_cmp += 1
+                    wbr.remove(hit[0])
+                    for r_, w_ in zip(rb, hit[0]):
+                        bad = pair(r_, w_, i + 1)
+                        n_cmp += 1
+                        if bad:
+                            break
                     if bad:
                         break
                 if bad:
